@@ -1264,53 +1264,67 @@ type histCase struct {
 	Seq  []kase `json:"sequence"`
 }
 
-func runHistCase(hc histCase, section string, sec *vh.Section) {
+func runHistCase(hc histCase, section string, sec *vh.Section) { runHistCases([]histCase{hc}, section, sec) }
+
+func runHistCases(hcs []histCase, section string, sec *vh.Section) {
 	td := getToday()
-	var p interface {
-		Parse([]byte) (time.Time, *date.Format)
+	type row struct {
+		c        int
+		i, n     int
+		k        kase
+		im, want string
 	}
-	if hc.List == "col" {
-		p = date.NewParser(colList...)
-	}
-	var lines, impls, wants []string
-	var ks []kase
-	for _, k := range hc.Seq {
-		text, ok := k.render()
-		if !ok {
-			continue
+	var rows []row
+	var lines []string
+	for ci, hc := range hcs {
+		var p interface {
+			Parse([]byte) (time.Time, *date.Format)
 		}
-		k.Text, k.List, k.Surround = text, hc.List, "alone"
-		var im string
 		if hc.List == "col" {
-			tm, ft := p.Parse([]byte(text))
-			if ft == nil {
-				im = "err"
-			} else {
-				im = canonTime(indexIn(colList, ft.GetFormat()), tm)
-			}
-		} else {
-			_, im = implLql(text)
+			p = date.NewParser(colList...)
 		}
-		impls = append(impls, im)
-		wants = append(wants, canonTime(-1, k.expected(td)))
-		lines = append(lines, hc.List+" "+nowStr(td)+" "+vh.HxS(text))
-		ks = append(ks, k)
+		for i, k := range hc.Seq {
+			text, ok := k.render()
+			if !ok {
+				continue
+			}
+			k.Text, k.List, k.Surround = text, hc.List, "alone"
+			var im string
+			if hc.List == "col" {
+				tm, ft := p.Parse([]byte(text))
+				if ft == nil {
+					im = "err"
+				} else {
+					im = canonTime(indexIn(colList, ft.GetFormat()), tm)
+				}
+			} else {
+				_, im = implLql(text)
+			}
+			rows = append(rows, row{ci, i, len(hc.Seq), k, im, canonTime(-1, k.expected(td))})
+			lines = append(lines, hc.List+" "+nowStr(td)+" "+vh.HxS(text))
+		}
 	}
 	outs := askModel(lines)
-	for i := range outs {
-		mc := canonModel(outs[i])
-		res.Eval(sec, fmt.Sprint(i)+"|"+ks[i].Format+"|"+ks[i].Text+"|"+fmt.Sprint(len(hc.Seq)))
-		a, b := impls[i], mc
+	bad := map[int]bool{}
+	for j, r := range rows {
+		if bad[r.c] {
+			continue
+		}
+		hc := hcs[r.c]
+		mc := canonModel(outs[j])
+		res.Eval(sec, fmt.Sprint(r.i)+"|"+r.k.Format+"|"+r.k.Text+"|"+fmt.Sprint(r.n)+"|"+hc.List)
+		a, b := r.im, mc
 		if hc.List == "lql" {
 			a, b = dropIdx(a), dropIdx(b)
 		}
 		if a != b {
-			res.Mismatch(vh.Mismatch{Section: section, Function: hc.List + " parse after a history of " + fmt.Sprint(i) + " earlier calls", Input: hc, Impl: impls[i], Model: mc})
-			return
-		}
-		if i == len(outs)-1 && instantOf(impls[i]) != instantOf(wants[i]) && instantOf(canonModel(askModel([]string{lines[i]})[0])) == instantOf(wants[i]) {
-			res.SpecFail(vh.SpecFailure{Section: section, Kind: "wrong-instant-after-history", Input: hc, Impl: impls[i], Spec: wants[i], Model: mc, ImplEqModel: false,
-				What: fmt.Sprintf("%q in format %q is %s after %d earlier calls of the same parser, expected %s", ks[i].Text, ks[i].Format, impls[i], i, wants[i])})
+			res.Mismatch(vh.Mismatch{Section: section, Function: hc.List + " parse after a history of " + fmt.Sprint(r.i) + " earlier calls", Input: hc, Impl: r.im, Model: mc})
+			// the model is stateless: its answer is the answer for the text alone
+			if r.i == r.n-1 && instantOf(r.im) != instantOf(r.want) && instantOf(mc) == instantOf(r.want) {
+				res.SpecFail(vh.SpecFailure{Section: section, Kind: "wrong-instant-after-history", Input: hc, Impl: r.im, Spec: r.want, Model: mc, ImplEqModel: false,
+					What: fmt.Sprintf("%q in format %q is %s after %d earlier calls of the same parser, expected %s", r.k.Text, r.k.Format, r.im, r.i, r.want)})
+			}
+			bad[r.c] = true
 		}
 	}
 }
@@ -1319,6 +1333,8 @@ func sectionHistory(rng *vh.Rng) {
 	sec := res.Section("history", "system-correspondence",
 		"sequences through ONE parser object: the text of a shorter format A parsed 1..4 times, then the text of a longer format B whose text A's expression also matches (B comes before A in the list) — a fresh date.NewParser(KnownFormats...) per sequence, and the package's one LQL parser; every answer vs the (stateless) MODEL, the last one vs SPEC")
 	base := inst{Y: 2019, Mo: 3, D: 11, H: 13, Mi: 14, S: 15}
+	var all []histCase
+	defer func() { runHistCases(all, "history", sec); res.Done(sec) }()
 	for _, lst := range []string{"col", "lql"} {
 		fl := colList
 		if lst == "lql" {
@@ -1368,11 +1384,10 @@ func sectionHistory(rng *vh.Rng) {
 					seq = append(seq, mk(a))
 				}
 				seq = append(seq, kb)
-				runHistCase(histCase{List: lst, Seq: seq}, "history", sec)
+				all = append(all, histCase{List: lst, Seq: seq})
 			}
 		}
 	}
-	res.Done(sec)
 }
 
 func sectionLineFile(rng *vh.Rng) {
@@ -1782,7 +1797,7 @@ func cmpLql(text string, modelAns string, before, after time.Time, tm time.Time,
 		// rel <unit> <num> ELSE <rest…>: resolved with the real strconv.ParseFloat (the float contract's instance)
 		num := string(vh.UnHx(p[2]))
 		val, err := strconv.ParseFloat(num, 64)
-		if err != nil {
+		if err != nil || (len(p) > 3 && p[3] == "NONNEG" && !(val >= 0)) {
 			j := strings.Index(modelAns, " ELSE ")
 			return cmpLql(text, modelAns[j+6:], before, after, tm, implC)
 		}
